@@ -31,6 +31,7 @@ func init() {
 			c12R6(c, "C12.R6")
 			ruleChecksumAfterMutation(c, "C12.R7", 5)
 			c12R10(c, "C12.R10")
+			rulePageCapacity(c, "C12.R11") // an independent reader finds every element inside its page run
 			rulePageTypeExact(c, "C12.R9") // v2: a page carries exactly one type flag
 			ruleInlineNoNested(c, "C12.R8") // v2 convention: an inline bucket has root page 0 and owns no pages
 		},
